@@ -288,8 +288,10 @@ def run_property(pid: str, tier: str, only: str | None = None, jobs: int | None 
         },
         "assumptions": sorted(stubs | {a for h in harnesses for a in h.assumptions}),
     }
-    os.makedirs(os.path.join(ROOT, "evidence"), exist_ok=True)
-    json.dump(ev, open(os.path.join(ROOT, "evidence", f"{pid}.json"), "w"), indent=1)
+    # runs against a snapshot of the repository (VERIF_REPO, development only) do not overwrite the evidence of /repo
+    ev_dir = os.environ.get("VERIF_EVIDENCE_DIR") or (os.path.join(ROOT, "evidence", "_snapshot_runs") if os.environ.get("VERIF_REPO") else os.path.join(ROOT, "evidence"))
+    os.makedirs(ev_dir, exist_ok=True)
+    json.dump(ev, open(os.path.join(ev_dir, f"{pid}.json"), "w"), indent=1)
 
     # ---- report --------------------------------------------------------
     for a in per_h:
